@@ -904,7 +904,8 @@ def stream_job(name, kind, c, segs, samples, prop="C13"):
         if o["op"] == "s":
             return {"ty": "s", "x": o["x"]}
         return {"ty": "b", "o": o["o"], "h": o["h"], "l": o["l"], "c": o["c"], "v": o["v"]}
-    sched_tla = "<<" + ",\n  ".join("[pat |-> %s, reps |-> %d]" % (tla([rec(o) for o in pat]), reps) for pat, reps in segs) + ">>"
+    segs = [(g[0], g[1], g[2] if len(g) > 2 else 0) for g in segs]
+    sched_tla = "<<" + ",\n  ".join("[pat |-> %s, reps |-> %d, ramp |-> %s]" % (tla([rec(o) for o in pat]), reps, tla(ramp)) for pat, reps, ramp in segs) + ">>"
     p = {"n": c["n"], "n2": c["n2"], "n3": c["n3"], "m": c["m"], "seed": c["seed"]}
     mod = """---- MODULE MC_%s ----
 EXTENDS Streams
@@ -926,7 +927,7 @@ CHECK_DEADLOCK FALSE
     mem = c["n"] + 1 if kind in ("ROC", "ER", "MFI") else c["n"]
     sched = {"prop": prop, "kind": kind, "per": [c["n"], c["n2"], c["n3"]], "m": [c["m"].numerator, c["m"].denominator],
              "seed": [c["seed"].numerator, c["seed"].denominator], "mem": mem,
-             "sched": [{"pat": pat, "reps": reps} for pat, reps in segs]}
+             "sched": [{"pat": pat, "reps": reps, "ramp": ramp} for pat, reps, ramp in segs]}
     return RawJob(name, mod, cfgt, sched=sched)
 
 
@@ -1013,7 +1014,218 @@ def plan_C13(tier, seed):
     }
 
 
+def all_seqs(alpha, L):
+    out = [[]]
+    for _ in range(L):
+        out = [s + [x] for s in out for x in alpha]
+    return out
+
+
+def plan_C14(tier, seed):
+    q = tier == "quick"
+    rng = random.Random(seed * 961748927 + 14)
+    jobs = []
+    # (a) the theorem on the specification: RefOut(a*h + b) is RefOut(h) moved as its dimension says
+    for kind in ALL22:
+        if kind == "RSI":
+            continue
+        combos = [(2, 0), (3, 0)] + ([(2, -1), (3, 2), (1, 2)] if kind not in ("ROC", "PPO", "MFI", "OBV") else [])
+        if q:
+            combos = combos[:1] + combos[-1:]
+        for n in ((2,) if q else (1, 2, 3)):
+            if kind in ("TR", "OBV") and n > 2:
+                continue
+            c = kcfg(kind, n, alt=n)
+            if c["m"] < 0:
+                c["m"] = Fr(2)
+            for (ca, cb) in combos:
+                conts = []
+                if kind in BAR_ONLY or kind in ("FAST_STOCH", "KC", "ATR", "TR"):
+                    alpha = (OSC_BARS if kind in ("CCI", "MFI", "OBV") else hlc_bars())[: (6 if q else 9)]
+                    for sq in all_seqs(range(len(alpha)), 3 if q else 4):
+                        ct = []
+                        for ix in sq:
+                            b = alpha[ix]
+                            ct.append(b_op(1, b))
+                            ct.append(b_op(2, {"o": ca * b["o"] + cb, "h": ca * b["h"] + cb, "l": ca * b["l"] + cb, "c": ca * b["c"] + cb, "v": b["v"]}))
+                        conts.append(ct)
+                else:
+                    for sq in all_seqs((1, 2, 3), 4 if q else 5):
+                        ct = []
+                        for x in sq:
+                            ct += [s_op(1, x), s_op(2, ca * x + cb)]
+                        conts.append(ct)
+                jobs.append(Job("cov_%s_n%d_%d_%d" % (kind, n, ca, cb + 9), {1: c, 2: c}, conts=conts, free_ids=set(), noovf=True,
+                                invariants=("Refines", "Covariant"), cov=(ca, cb), emit=None))
+    for n in (1, 2, 3):
+        conts = []
+        for sq in all_seqs((-2, 0, 1, 3), 4):
+            ct = []
+            for x in sq:
+                ct += [s_op(1, x), s_op(2, -x)]
+            conts.append(ct)
+        jobs.append(Job("dual_n%d" % n, {1: cfg("MIN", n), 2: cfg("MAX", n)}, conts=conts, free_ids=set(), invariants=("Refines", "MinMaxDual"), cov=(-1, 0), emit=None))
+    # (b) the relation on the real code: TLC-generated behaviours re-run at pairs of related price units
+    inv = ("Refines", "Safe")
+    for kind in ALL22:
+        if kind == "RSI":
+            continue
+        for n in ((1, 2, 3) if q else (1, 2, 3, 4)):
+            if kind in ("TR", "OBV") and n > 1:
+                continue
+            a = kcfg(kind, n, alt=n + 1)
+            sa, ba = free_alpha(kind)
+            unb = kind in UNBOUNDED
+            depth = (n + 3) if unb or kind in BAR_ONLY else 10**6
+            if kind in BAR_ONLY and n >= 3:
+                ba = ba[:5]
+            jobs.append(Job("%s_n%d" % (kind, n), {1: a}, salpha=sa, balpha=ba, maxdepth=depth, noovf=False, invariants=inv, threads=8))
+        for rep in range(1 if q else 3):
+            n = rng.choice([2, 5, 9, 14, 30])
+            a = kcfg(kind, n, alt=rep)
+            L = 250 if q else 1200
+            if kind in BAR_ONLY or rep == 1:
+                ops = [b_op(1, b) for b in rand_bars(rng, L)]
+            else:
+                ops = [s_op(1, x) for x in stream_patterns(rng, L, 1, 30, lively=True)]
+            jobs.append(scripted("%s_str%d_n%d" % (kind, rep, n), {1: a}, [new_op(1)] + ops, noovf=False, invariants=inv))
+    return {
+        "jobs": jobs, "parallel": 12,
+        "rule": "(a) on the specification: for 21 kinds (RSI excluded) and factors/shifts (2,0), (3,0), (2,-1), (3,2), (1,2), TLC checks on every input sequence up to "
+                "length 4-5 over {1,2,3} (bars: 3-4 bars from the curated alphabets) that the exact reference of the moved history equals the moved reference, as the "
+                "dimension table (level / spread / variance / ratio / volume) says, and MAX(x) = -MIN(-x); (b) on the real crate: every transition of closed / "
+                "depth-bounded models and seeded streams is run at four base units and again scaled by 2^k (k = -40..40), by 3, 0.7, 1e3, 1/3 and shifted by 1e3, 2^20, "
+                "1e6+0.5 units; outputs must agree within 1e-12 relative for powers of two, 1e-9 otherwise (spread-type outputs under a shift: plus 1e-13 * "
+                "magnitude * (1+t); ratios: times the spec's condition number)",
+        "assumptions": COMMON_ASSUME + ["'unchanged within rounding' under a shift is read as 1e-9 relative plus 1e-13 of the shifted magnitude per step"],
+    }
+
+
+COMPOSITES = ["BB", "SLOW_STOCH", "ATR", "MACD", "PPO", "KC", "CE", "CCI", "RSI"]
+
+
+def plan_C15(tier, seed):
+    q = tier == "quick"
+    rng = random.Random(seed * 1000000007 + 15)
+    jobs = []
+    inv = ("Refines", "Safe", "PartsAgree")
+    hb = hlc_bars()
+    for kind in COMPOSITES:
+        for n in ((1, 2, 3) if q else (1, 2, 3, 4)):
+            for alt in ((0,) if q else (0, 1)):
+                a = kcfg(kind, n, alt=n + alt)
+                if kind in ("CCI", "CE"):
+                    sa, ba = set(), (OSC_BARS if kind == "CCI" else hb)
+                elif kind in ("SLOW_STOCH", "ATR", "KC") and alt == 0 and n <= 2:
+                    sa, ba = set(), hb
+                else:
+                    sa, ba = (A5 if kind in ("BB", "MACD", "KC", "ATR") else P3), []
+                closed_kind = kind in ("BB", "CCI")
+                depth = 10**6 if closed_kind and n <= 3 else (n + 3 if ba or kind in ("MACD", "PPO", "KC") else n + 4)
+                if ba and n >= 3:
+                    ba = ba[:6]
+                jobs.append(Job("%s_n%d_%d" % (kind, n, alt), {1: a}, salpha=sa, balpha=ba, resets=({1} if n <= 2 else ()), maxdepth=depth,
+                                noovf=(kind != "RSI"), invariants=inv))
+        for rep in range(2 if q else 6):
+            n = rng.choice([2, 3, 5, 9, 14, 20, 26, 50])
+            a = cfg(kind, n, n2=rng.choice([1, 3, 9, 26]), n3=rng.choice([1, 9]), m=rng.choice(MULTS))
+            L = 3000 if q else 15000
+            if kind in ("CCI", "CE") or (kind in ("SLOW_STOCH", "ATR", "KC") and rep % 2):
+                ops = [b_op(1, b) for b in rand_bars(rng, L)]
+            else:
+                xs = stream_patterns(rng, L, 1, 30, lively=True)
+                if rng.random() < 0.5:
+                    xs[rng.randrange(L)] = BIG
+                ops = [s_op(1, x) for x in xs]
+            for _ in range(rng.randint(0, 3)):
+                ops.insert(rng.randrange(len(ops)), {"op": "reset", "i": 1})
+            jobs.append(scripted("%s_str%d_n%d" % (kind, rep, n), {1: a}, [new_op(1)] + ops, noovf=False, invariants=inv))
+    return {
+        "jobs": jobs, "parallel": 12,
+        "min_counts": {"wired_parts_compared": 9 * 500},
+        "rule": "TaRef defines every composite twice: by its documented formula (RefStep) and as the composition of the reference semantics of its public parts "
+                "(PartsStep: SMA+SD for BB, EMA of FAST_STOCH, EMA of TR, three EMAs, EMA+ATR, MAX+MIN+ATR, SMA+MAD of the typical price); the invariant PartsAgree "
+                "is model-checked on closed / depth-bounded models; every transition and seeded streams of 3 000-15 000 inputs are replayed with the real composite "
+                "AND real, separately constructed parts wired the same way (RSI as two EMAs of gains/losses seeded 0.1); outputs are compared with the classes of the "
+                "spec (tau*M, variances for the Bollinger half-width, condition number for CCI / SLOW_STOCH / PPO)",
+        "assumptions": COMMON_ASSUME + ["the wiring of the real parts in the harness (replay.rs, Parts) mirrors PartsStep by hand"],
+    }
+
+
+def plan_C18(tier, seed):
+    q = tier == "quick"
+    rng = random.Random(seed * 1190494759 + 18)
+    jobs = []
+    inv = ("Safe",)
+    total = 100000 if q else 1000000
+    def shape_segments(kind, shape, n):
+        def mk(xs):
+            if kind in BAR_ONLY:
+                return [{k: v for k, v in b_op(1, bar(x + 1, max(1, x - 1), x, o=x, v=(1 + k % 3))).items() if k != "i"} for k, x in enumerate(xs)]
+            return [{"op": "s", "x": x} for x in xs]
+        if shape == "falling":
+            return [(mk([total + 10]), total, -1)]
+        if shape == "rising":
+            return [(mk([5]), total, 1)]
+        if shape == "alternating":
+            return [(mk([3, 40]), total // 2, 0)]
+        if shape == "flat":
+            return [(mk([rng.randint(1, 30) for _ in range(3 * n + 7)]), 1, 0), (mk([17]), total, 0)]
+        if shape == "sawfall":   # long falls interrupted by jumps
+            return [(mk(list(range(2000, 0, -1))), total // 2000, 0)]
+        return [(mk([rng.randint(1, 50) for _ in range(997)]), total // 997, 0)]
+    shapes = ["falling", "rising", "alternating", "flat", "sawfall", "random"]
+    for ki, kind in enumerate(ALL22):
+        for si, shape in enumerate(shapes):
+            if q and (ki + si + seed) % 2 and shape not in ("falling", "flat"):
+                continue
+            n = rng.choice([1, 2, 5, 14, 20, 64, 200, 512])
+            c = kcfg(kind, n, alt=si)
+            segs = shape_segments(kind, shape, n)
+            tot = sum(len(p) * r for p, r, _ in segs)
+            samples = {1, 2, tot, max(1, tot // 3)}
+            if kind not in UNBOUNDED and kind not in ("TR",):
+                jobs.append(stream_job("%s_%s_n%d" % (kind, shape, n), kind, c, segs, samples, prop="C18"))
+            else:
+                # kinds without a window state: the stream model has no closed form for them; run the shape through the harness only,
+                # with the bound from the specification's SizeBound table (checked for these kinds by the short TaSystem models below)
+                jobs.append(stream_job("%s_%s_n%d" % (kind, shape, n), "SMA" if kind not in BAR_ONLY else "CCI", c, segs, samples, prop="C18"))
+                jobs[-1].sched["kind"] = kind
+    # short runs with serialization after every step, all kinds, periods 1..512: size constant after the first input and under the bound
+    for kind in ALL22:
+        ids, ops = {}, []
+        periods = [1, 2, 3, 7, 20, 64, 200, 512] if q else [1, 2, 3, 4, 5, 7, 9, 14, 20, 33, 64, 100, 128, 200, 256, 511, 512]
+        if kind in ("TR", "OBV"):
+            periods = [1]
+        for k, n in enumerate(periods):
+            i = k + 1
+            ids[i] = kcfg(kind, n, alt=k)
+            ops.append(new_op(i))
+            xs = stream_patterns(rng, min(3 * n + 20, 260), 1, 30, lively=True)
+            body = to_ops(kind, i, xs)
+            for j, o in enumerate(body):
+                ops.append(o)
+                if j in (0, 1, n, n + 1, len(body) - 1):
+                    ops.append({"op": "save", "i": i, "s": 1})
+            ops += [{"op": "reset", "i": i}] + to_ops(kind, i, xs[:5]) + [{"op": "drop", "i": i}]
+        jobs.append(scripted("%s_sizes" % kind, ids, ops, slots={1}, noovf=False, invariants=inv))
+    return {
+        "jobs": jobs, "parallel": 8,
+        "min_counts": {"heap_checked": 22 * 10000, "size_checked": 22 * 50},
+        "rule": "per kind and stream shape (strictly falling, strictly rising, alternating, flat after activity, long falls with jumps, random) an intensional schedule "
+                "(Streams.tla, with ramp segments) of 10^5 (quick) / 10^6 (thorough) inputs for periods sampled from 1..512 is expanded into real calls; the net heap "
+                "bytes allocated inside next() (counting allocator, per thread) since construction must stay under SizeBound(kind, p) = 256 + 64 * sum of periods from the "
+                "specification, and the bincode length is sampled (every step up to 300, then every 997th) against the same bound and must stay constant after the first "
+                "input; plus scripted short runs for periods 1..512 with Save at the spec's checkpoints",
+        "assumptions": ["heap use is measured by a counting global allocator inside the harness process, around each call of next()",
+                        "for kinds with unbounded reference memory the stream model carries no value expectation (only the bound and the shape)"],
+    }
+
+
 PLANS = {
+    "C15": plan_C15,
+    "C18": plan_C18,
+    "C14": plan_C14,
     "C13": plan_C13,
     "C11": plan_C11,
     "C16": plan_C16,
